@@ -32,7 +32,14 @@ impl Fam<'_> {
         self.rep.shape("seqdef_operators", label);
         self.rep.distinct_case(&src);
         let want_c = canon(want);
-        let got = match real::parse_exec(src, true) {
+        let out = real::parse_exec(src, true);
+        if let Outcome::Panic(p) = &out {
+            if p.kind != real::PanicKind::Panic {
+                self.rep.inconclusive("seqdef:resource-or-fuel");
+                return;
+            }
+        }
+        let got = match out {
             Outcome::Value(v) => canon(&v),
             other => other.tag(),
         };
